@@ -18,6 +18,8 @@ Notation "x <- m ;; k" := (bind m (fun x => k)) (at level 61, m at next level, r
 Notation "m ;;; k" := (bind m (fun _ => k)) (at level 61, right associativity).
 
 Definition fail {A} : M A := fun s => RErr (aline (str s)) (acc s).
+(* a loop of the MODEL ran out of fuel (never happens: C10/ProofsFuel.v); line numbers of real errors are >= 1 *)
+Definition oof {A} : M A := fun s => RErr (-1) (acc s).
 Definition require (b : bool) : M unit := fun s => if b then ROk tt s else RErr (aline (str s)) (acc s).
 Definition emit (c : call) : M unit := fun s => ROk tt (mkR (str s) (c :: acc s)).
 Definition on_str {A} (f : ast -> A * ast) : M A := fun s => let '(a, t) := f (str s) in ROk a (mkR t (acc s)).
@@ -68,7 +70,7 @@ Definition mem (c : Z) (l : list Z) : bool := existsb (Z.eqb c) l.
 (* void matchAtoms(const char* seps) - at end of input strchr finds the terminator but get() returns 0 *)
 Fixpoint m_atoms_loop (fuel : nat) (seps : list Z) : M (list Z) :=
   match fuel with
-  | O => fail
+  | O => oof
   | S f =>
       x <- m_lit ;; require (0 <? x) ;;;
       c <- peek false ;;
@@ -80,7 +82,7 @@ Definition m_atoms (seps : list Z) : M (list Z) :=
 
 Fixpoint m_lits_loop (fuel : nat) : M (list Z) :=
   match fuel with
-  | O => fail
+  | O => oof
   | S f => x <- m_lit ;; b <- mtok t_comma false ;; if b then (r <- m_lits_loop f ;; ret (x :: r)) else ret [x]
   end.
 Definition m_lits : M (list Z) :=
@@ -89,7 +91,7 @@ Definition m_cond : M (list Z) := b <- mtok t_colon false ;; if b then m_lits el
 
 Fixpoint m_agg_loop (fuel : nat) : M (list (Z * Z)) :=
   match fuel with
-  | O => fail
+  | O => oof
   | S f =>
       l <- m_lit ;; e <- mtok t_eq false ;; w <- (if e then m_int else ret 1) ;;
       b <- mtok t_comma false ;;
@@ -104,13 +106,13 @@ Definition m_agg : M (list (Z * Z)) :=
 (* ---------- #output terms ---------- *)
 Fixpoint m_ident_loop (fuel : nat) (sym : list Z) : M (list Z) :=
   match fuel with
-  | O => fail
+  | O => oof
   | S f => c <- get ;; n <- peek false ;;
            if is_alnum n || (n =? 95) then m_ident_loop f (sym ++ [c]) else ret (sym ++ [c])
   end.
 Fixpoint m_str_loop (fuel : nat) (quoted : bool) (sym : list Z) : M (list Z) :=
   match fuel with
-  | O => fail
+  | O => oof
   | S f => c <- peek false ;;
            if negb (c =? 0) && (negb (c =? 34) || quoted) then
              g <- get ;; m_str_loop f (negb quoted && (c =? 92)) (sym ++ [g])
@@ -123,7 +125,7 @@ Definition m_str (sym : list Z) : M (list Z) :=
   mtok t_quote true ;;; ret (s1 ++ [34]).
 Fixpoint m_arg_loop (fuel : nat) (p : Z) (sym : list Z) : M (list Z) :=
   match fuel with
-  | O => fail
+  | O => oof
   | S f =>
       c <- peek false ;;
       if c =? 0 then ret sym
@@ -136,7 +138,7 @@ Fixpoint m_arg_loop (fuel : nat) (p : Z) (sym : list Z) : M (list Z) :=
   end.
 Fixpoint m_args_loop (fuel : nat) (sym : list Z) : M (list Z) :=
   match fuel with
-  | O => fail
+  | O => oof
   | S f => n <- remaining ;; s1 <- m_arg_loop n 0 sym ;; b <- mtok t_comma false ;;
            if b then m_args_loop f (s1 ++ [44]) else ret s1
   end.
@@ -207,7 +209,7 @@ Definition m_directive (inc : bool) : M bool :=
 
 Fixpoint skip_line (fuel : nat) : M unit :=
   match fuel with
-  | O => fail
+  | O => oof
   | S f => c <- peek false ;; if c =? 0 then ret tt else g <- get ;; if g =? 10 then ret tt else skip_line f
   end.
 Definition m_skip_line : M unit := n <- remaining ;; skip_line n.
@@ -215,7 +217,7 @@ Definition m_skip_line : M unit := n <- remaining ;; skip_line n.
 (* bool parseStatements() *)
 Fixpoint m_statements (fuel : nat) (inc : bool) : M unit :=
   match fuel with
-  | O => fail
+  | O => oof
   | S f =>
       c <- peek true ;;
       if c =? 0 then ret tt
@@ -228,7 +230,7 @@ Fixpoint m_statements (fuel : nat) (inc : bool) : M unit :=
 (* ProgramReader::parse(Complete): doParse() = beginStep; parseStatements; endStep *)
 Fixpoint m_steps (fuel : nat) (inc : bool) : M unit :=
   match fuel with
-  | O => fail
+  | O => oof
   | S f =>
       emit CBegin ;;; n <- remaining ;; m_statements n inc ;;; emit CEnd ;;; skipws ;;;
       c <- peek true ;; require ((c =? 0) || inc) ;;;
@@ -237,7 +239,7 @@ Fixpoint m_steps (fuel : nat) (inc : bool) : M unit :=
 
 Fixpoint m_skip_comments (fuel : nat) : M unit :=
   match fuel with
-  | O => fail
+  | O => oof
   | S f => c <- peek true ;; if c =? 37 then m_skip_line ;;; m_skip_comments f else ret tt
   end.
 
